@@ -7,11 +7,14 @@
 //   schur_ilu0 / schur_amg_ilu0     schur_pressure_correction with ILU(0)-based sub-solvers
 //   cpr_ilu0 / cpr_drs_ilu0         cpr / cpr_drs with amg<ilu0> pressure and as_preconditioner<ilu0> global parts
 //   mbs_amg_ilu0 / mbs_asp_ilu0     make_block_solver (block_matrix adapter applied to the USER rows), b = 2 or 3
+//   asp_zc_ilu0 / cpr_zc_ilu0       the shared_ptr (internal format) entry points reached with adapter::zero_copy views
+//                                   of the user arrays: nothing is copied, so nothing can be sorted
 // Op:  pc3 <kind> <bs> <crs A>  ->  {n n | dense operator: row i = apply(e_i)}      (exact arithmetic)
 // The python side runs every case twice (rows shuffled / rows sorted) and compares.
 #include "vq_io.hpp"
 #include <amgcl/adapter/crs_tuple.hpp>
 #include <amgcl/adapter/block_matrix.hpp>
+#include <amgcl/adapter/zero_copy.hpp>
 #include <amgcl/value_type/static_matrix.hpp>
 #include <amgcl/amg.hpp>
 #include <amgcl/make_solver.hpp>
@@ -133,6 +136,16 @@ static std::string pc_body(Tok &t) {
         typedef preconditioner::cpr_drs<AmgIlu0, AspIlu0> P;
         P::params prm; prm.block_size = bs; prm.pprecond.coarse_enough = 2;
         P p(A, prm); return dense_apply(p, a.n);
+    }
+    if (kind == "asp_zc_ilu0") {
+        auto Z = adapter::zero_copy((size_t)a.n, a.ptr.data(), a.col.data(), a.val.data());
+        AspIlu0 p(Z); return dense_apply(p, a.n);
+    }
+    if (kind == "cpr_zc_ilu0") {
+        typedef preconditioner::cpr<AmgIlu0, AspIlu0> P;
+        P::params prm; prm.block_size = bs; prm.pprecond.coarse_enough = 2;
+        auto Z = adapter::zero_copy((size_t)a.n, a.ptr.data(), a.col.data(), a.val.data());
+        P p(Z, prm); return dense_apply(p, a.n);
     }
     if (kind == "mbs_amg_ilu0" || kind == "mbs_asp_ilu0") {
         if (bs == 2) return mbs<2>(kind, a);
